@@ -130,6 +130,21 @@ def special_graphs():
             D = [(0.0, 0.0), (0.0, 1.0), (0.5, 1.75), (-0.5, 1.75), (0.0, 2.5), (0.0, 3.5), (0.0, 4.5)]
         dia = {0: (D[0], [1]), 1: (D[1], [2, 3]), 2: (D[2], [4]), 3: (D[3], [4]), 4: (D[4], [5]), 5: (D[5], [6]), 6: (D[6], [])}
         yield (f"diamond7-1way-{pos}", pos, dia)
+        # two road islands that are close to each other but not connected: a trace that walks from one to the other stops
+        # early for lack of a transition (not for distance), which is what continue_with_distance() is for
+        if pos == "GRID":
+            I = [(0.0, 0.0), (0.0, 1.0), (0.0, 2.0), (0.5, 2.75), (0.5, 3.75), (0.5, 4.75)]
+        else:
+            I = [(0.03, 0.01), (0.02, 1.04), (-0.01, 2.03), (0.52, 2.71), (0.49, 3.77), (0.53, 4.72)]
+        isl = {0: (I[0], [1]), 1: (I[1], [0, 2]), 2: (I[2], [1]), 3: (I[3], [4]), 4: (I[4], [3, 5]), 5: (I[5], [4])}
+        yield (f"islands6-2way-{pos}", pos, isl)
+        # two feeder roads converging into a dead end, and a separate island nearby (jump target)
+        if pos == "GRID":
+            Fd = [(0.5, 0.0), (-0.5, 0.0), (0.0, 1.0), (0.0, 2.0), (0.5, 2.75), (0.5, 3.75), (0.5, 4.75)]
+        else:
+            Fd = [(0.52, 0.03), (-0.49, -0.02), (0.02, 1.04), (-0.01, 2.03), (0.52, 2.71), (0.49, 3.77), (0.53, 4.72)]
+        fd = {0: (Fd[0], [2]), 1: (Fd[1], [2]), 2: (Fd[2], [3]), 3: (Fd[3], []), 4: (Fd[4], [5]), 5: (Fd[5], [4, 6]), 6: (Fd[6], [5])}
+        yield (f"feeders7-{pos}", pos, fd)
         # two one-way roads that cross in an X and re-converge after the same number of edges, then a single long road:
         # chains grown from two different emitting states of the same observation merge inside a non-emitting run
         if pos == "GRID":
